@@ -7,7 +7,14 @@
    [original] is kept for the refutations.  Every dereference of a member of a
    remote message that the code performs without a nil check is an explicit
    [Panic]; every acquisition of helloMu by the goroutine that already holds
-   it is an explicit [Stuck]. *)
+   it is an explicit [Stuck].
+
+   The read goroutine does not end at the FederationClient: processMessage hands
+   the (rewritten) message to ClientSession.SendMessage, and filterMessage runs
+   in the same goroutine.  Its dereferences are part of the model: the entries of
+   a room/join event ([filter_join]) and the unchecked entry["sessionId"].(string)
+   on the entries of a participants/update event ([session_filter_panics], after
+   [update_users] = FederationClient.updateEventUsers). *)
 From Coq Require Import List ZArith NArith Bool String.
 From Verif Require Import gen.Params.
 Import ListNotations.
